@@ -349,20 +349,29 @@ class LFRicStencils(LFRicCollection):
 
         if self._unique_extent_vars:
             if self._kernel:
-                for arg in self._kern_args:
+                # The size of a 'cross2d' stencil is an array (one entry per
+                # branch) while all other stencil sizes are scalars, so the
+                # two kinds must be declared separately.
+                sizes_2d = []
+                sizes_1d = []
+                for arg in self._unique_extent_args:
+                    name = self.dofmap_size_symbol(self._symbol_table,
+                                                   arg).name
                     if arg.descriptor.stencil['type'] == "cross2d":
-                        parent.add(DeclGen(
-                            parent, datatype="integer",
-                            kind=api_config.default_kind["integer"],
-                            dimension="4",
-                            entity_decls=self._unique_extent_vars, intent="in"
-                        ))
+                        sizes_2d.append(name)
                     else:
-                        parent.add(DeclGen(
-                            parent, datatype="integer",
-                            kind=api_config.default_kind["integer"],
-                            entity_decls=self._unique_extent_vars,
-                            intent="in"))
+                        sizes_1d.append(name)
+                if sizes_2d:
+                    parent.add(DeclGen(
+                        parent, datatype="integer",
+                        kind=api_config.default_kind["integer"],
+                        dimension="4",
+                        entity_decls=sizes_2d, intent="in"))
+                if sizes_1d:
+                    parent.add(DeclGen(
+                        parent, datatype="integer",
+                        kind=api_config.default_kind["integer"],
+                        entity_decls=sizes_1d, intent="in"))
             elif self._invoke:
                 parent.add(DeclGen(
                     parent, datatype="integer",
